@@ -650,8 +650,14 @@ class BuildWorld(HistoryWorld):
         rrem = 4 - len(be['refs'])
         if r < 0.07:
             q.append({'op': 'new_builder'})
-        elif r < 0.12:
+        elif r < 0.10:
             q.append(self._aux_cell_op(st, rng))
+        elif r < 0.12:
+            # the builder's public bits / refs properties are settable: assigning and finishing is a builder operation too
+            if rng.random() < 0.6:
+                q.append({'op': 'assign_finish', 'b': bi, 'what': 'refs', 'refs': [rng.randrange(1 << 16) for _ in range(rng.choice([0, 3, 4, 5, 5, 6, 9]))]})
+            else:
+                q.append({'op': 'assign_finish', 'b': bi, 'what': 'bits', 'bits': _rbits(rng, rng.choice([0, 1016, 1023, 1024, 1025, 1031, 1100, 2040])), 'plain': rng.random() < 0.5})
         elif r < 0.62:
             self._gen_aimed_store(st, rng, bi, rem, rrem)
         elif r < 0.72:
@@ -1047,6 +1053,35 @@ class BuildWorld(HistoryWorld):
         if not okk or got != data:
             self.V(ctx, 'bits-exact', 'store_' + t, 'len-%s' % _lenclass(len(data)),
                    'snake of %d bytes at fill %d is not a valid snake chain of the data (got %d bytes)' % (len(data), len(before), len(got)))
+
+    def op_assign_finish(self, st, op, ctx):
+        """builder.refs = [...] / builder.bits = ... followed by end_cell(), then the previous content is put back and the history
+        goes on: later stores and reads must behave as if nothing had happened.  What end_cell() yields here is only counted."""
+        be = pick(st.builders, op['b'])
+        if be is None or not st.cells:
+            return
+        lib = be['lib']
+        if op['what'] == 'refs':
+            old = list(lib.refs)
+            new = [st.cells[r % len(st.cells)]['lib'] for r in op['refs']]
+            ok, _ = call(setattr, lib, 'refs', new)
+        else:
+            old = lib.bits.copy()
+            new = bitarray(op['bits']) if op.get('plain') else None
+            if new is None:
+                ok, new = call(tvm_bits, op['bits'])
+                if not ok:
+                    ctx.probe('oversized-bit-array-refused-at-construction')
+                    return
+            ok, _ = call(setattr, lib, 'bits', new)
+        ctx.probe('builder-property-assigned-' + op['what'])
+        if ok:
+            ok2, c = call(lib.end_cell)
+            if ok2 and (len(c.bits) > 1023 or len(c.refs) > 4):
+                # carve-out, counted and not asserted: C07 quantifies over sequences of STORE operations; replacing the builder's
+                # containers through its property setters is not one of them (observed today: builder.refs = [5 cells] gives a 5-reference cell)
+                ctx.probe('carve-out:oversized-cell-after-assigning-' + op['what'])
+        call(setattr, lib, op['what'], old)
 
     def op_end_cell(self, st, op, ctx):
         be = pick(st.builders, op['b'])
